@@ -656,8 +656,9 @@ def make_any(kind, cfg):
         import copy
         from tangelo.toolboxes.ansatz_generator.adapt_ansatz import ADAPTAnsatz
         pool = _pool(cfg["mapping"], cfg["utd"])
-        return ADAPTAnsatz(4, 2, 0, {"mapping": cfg["mapping"], "up_then_down": cfg["utd"],
-                                     "operators": [copy.deepcopy(pool[pk]) for pk in cfg["picks"]]})
+        return ADAPTAnsatz(4, 2, 0, dict({"mapping": cfg["mapping"], "up_then_down": cfg["utd"],
+                                          "operators": [copy.deepcopy(pool[pk]) for pk in cfg["picks"]]},
+                                         **({"reference_state": cfg["ref"]} if cfg.get("ref") else {})))
     return make(kind, cfg)
 
 
@@ -704,10 +705,10 @@ def reference_bits(n_so, n_alpha, n_beta, mapping, utd):
 def h_zero(env, kind, cfg, occ, canary=False):
     """all-zero parameters prepare exactly the reference state (excitation-based ansaetze); also after a symbolic
     build followed by an update to the zero vector"""
-    A = make(kind, cfg)
+    A = make_any(kind, cfg)
     n = A.n_var_params
     zeros = [0.0] * n
-    B = make(kind, cfg)
+    B = make_any(kind, cfg)
     with sym_alloc(env):
         if not guarded(env, f"{kind}: build_circuit at the all-zero vector", lambda: A.build_circuit(list(zeros))):
             return
@@ -925,6 +926,10 @@ def shapes(tier, seed):
                              modules=MODS, max_paths=600, group=f"zero/{kind}"))
         if kind not in first_canary:
             first_canary[kind] = (cfg, n, occ)
+    # ADAPT (its reference_state option is read case-insensitively): zero parameters give the Hartree-Fock determinant |1100> (JW)
+    for sp_ in ("HF", "hf", "Hf"):
+        out.append(Shape(f"zero/adapt/jw/picks=0,2/reference_state={sp_}", h_zero,
+                         dict(kind="adapt", cfg=dict(mapping="jw", utd=False, picks=(0, 2), ref=sp_), occ=[1, 1, 0, 0]), modules=MODS, max_paths=600, group="zero/adapt"))
     for mp_, utd_ in (("jw", False), ("bk", True), ("scbk", True)):
         out.append(Shape(f"update/uccgd-special-ratios/H2/{mp_}/utd={int(utd_)}", h_uccgd_special, dict(cfg=dict(mol="H2", mapping=mp_, utd=utd_)), modules=(),
                          group="update/uccgd"))
